@@ -744,6 +744,96 @@ Definition spec_rec_complete (cs : list chrom) (ob : observed) : bool :=
   | Some es => msub ce_eqb (all_expected_recs cs) es
   end.
 
+(* ---- recombination list against the phased output VCF alone (independent of the run's own transmission vector).
+   In a trio, at a variant p where the parent is heterozygous and phased in phase set ps (GT a|b, PS = ps) and
+   the child's allele inherited from that parent is known (child phased in the same set: first allele = paternal,
+   second = maternal; or child homozygous), the output VCF determines which of the parent's two haplotypes was
+   transmitted.  Between two consecutive such variants p < q of one phase set (p not being the first variant of
+   the set, whose successor pair find_recombination never examines) the transmitted haplotype changes iff the
+   list holds an odd number of events of that child and set inside [p, q] that switch this parent's haplotype. *)
+Definition call_at (ovc : list (list (Z * (list Z * option Z)))) (recs : list vrec) (s p : Z)
+  : option (list Z * option Z) :=
+  match find (fun ro => v_pos (fst ro) =? p) (combine recs ovc) with
+  | Some (_, calls) => lookup s calls
+  | None => None
+  end.
+
+(* which : 0 = the child's paternal allele (parent = father), 1 = its maternal allele (parent = mother) *)
+Definition implied_transmission (ovc : list (list (Z * (list Z * option Z)))) (recs : list vrec)
+           (child parent : Z) (which : nat) (p : Z) : option (Z * Z) :=
+  match call_at ovc recs parent p, call_at ovc recs child p with
+  | Some (a :: b :: nil, Some ps), Some (cg, cps) =>
+      if a =? b then None
+      else
+        let inherited :=
+          match cps with
+          | Some ps' => if ps' =? ps then nth_error cg which else None
+          | None => match cg with
+                    | x :: y :: nil => if (x =? y) && (0 <=? x) then Some x else None
+                    | _ => None
+                    end
+          end in
+        match inherited with
+        | Some x => if x =? a then Some (ps, 0) else if x =? b then Some (ps, 1) else None
+        | None => None
+        end
+  | _, _ => None
+  end.
+
+(* the informative variants (position, phase set, transmitted haplotype) of one parent-child pair, in VCF order *)
+Definition informative (ovc : list (list (Z * (list Z * option Z)))) (recs : list vrec)
+           (child parent : Z) (which : nat) : list (Z * (Z * Z)) :=
+  flat_map (fun p => match implied_transmission ovc recs child parent which p with
+                     | Some x => [(p, x)]
+                     | None => []
+                     end) (dedup (map v_pos recs)).
+
+Definition switches_parent (which : nat) (e : rec_entry) : bool :=
+  match which with
+  | O => negb (ce_f1 e =? ce_f2 e)
+  | _ => negb (ce_m1 e =? ce_m2 e)
+  end.
+
+Fixpoint consecutive_ok (chromname child : Z) (which : nat) (comps : list (Z * Z)) (es : list rec_entry)
+         (l : list (Z * (Z * Z))) : bool :=
+  match l with
+  | [] => true
+  | (p, (ps, h)) :: tl =>
+      match tl with
+      | [] => true
+      | (q, (_, h')) :: _ =>
+          ((p + 1 =? ps) ||
+           Bool.eqb (Nat.odd (length (filter (fun e =>
+                        (ce_child e =? child) && (ce_chrom e =? chromname) &&
+                        (p + 1 <=? ce_p1 e) && (ce_p2 e <=? q + 1) &&
+                        opt_eqb Z.eqb (lookup (ce_p1 e - 1) comps) (Some (ps - 1)) &&
+                        switches_parent which e) es)))
+                    (negb (h =? h')))
+          && consecutive_ok chromname child which comps es tl
+      end
+  end.
+
+Definition pair_ok (c : chrom) (ovc : list (list (Z * (list Z * option Z)))) (i : inst) (es : list rec_entry)
+           (child parent : Z) (which : nat) : bool :=
+  let inf := informative ovc (c_records c) child parent which in
+  forallb (fun ps => consecutive_ok (c_name c) child which (i_comps i) es
+                                    (filter (fun x => fst (snd x) =? ps) inf))
+          (dedup (map (fun x => fst (snd x)) inf)).
+
+Definition spec_rec_vs_vcf (cs : list chrom) (ob : observed) : bool :=
+  match entries_of (ob_recs ob) with
+  | None => false
+  | Some es =>
+      forallb (fun co =>
+                 negb (c_selected (fst co)) ||
+                 forallb (fun i =>
+                            forallb (fun t => pair_ok (fst co) (snd co) i es (fst t) (fst (snd t)) 0
+                                              && pair_ok (fst co) (snd co) i es (fst t) (snd (snd t)) 1)
+                                    (i_trios i))
+                         (c_insts (fst co)))
+              (combine cs (ob_vcf ob))
+  end.
+
 (* ---- level L2: model = implementation *)
 Definition vcf_eqb (m : list (list (list (Z * list Z)))) (ovcf : list (list (list (Z * (list Z * option Z))))) : bool :=
   list_eqb (list_eqb (list_eqb (fun a b => (fst a =? fst b) && list_eqb Z.eqb (snd a) (snd b))))
@@ -797,6 +887,8 @@ Definition chk_rec_genuine (k : case) : bool :=
   negb (o_recs (k_opts k)) || spec_rec_genuine (k_cs k) (k_ob k).
 Definition chk_rec_complete (k : case) : bool :=
   negb (o_recs (k_opts k)) || spec_rec_complete (k_cs k) (k_ob k).
+Definition chk_rec_vs_vcf (k : case) : bool :=
+  negb (o_recs (k_opts k)) || spec_rec_vs_vcf (k_cs k) (k_ob k).
 Definition chk_rec_cover (k : case) : bool :=
   negb (o_recs (k_opts k)) ||
   match k_inst_recs k with
